@@ -2,8 +2,21 @@
 //!
 //! Bounded-exhaustive enumeration of query strings for the five front ends
 //! (GQL, Cypher, Gremlin, GraphQL, SPARQL), executed in sacrificial child
-//! processes of this same binary.  See `gen.rs` for the input space and
-//! `worker.rs` for what a child does with one string.
+//! processes of this same binary.  `inputs.rs` writes the input space down
+//! (token strings, corpus, mutants, boundary constants, nesting ladders,
+//! arithmetic grid); `worker.rs` is what a child does with one string (parser,
+//! translator, binder probes, then the public `execute*` entry points on an
+//! empty database and on G0 with every parameter-map class).
+//!
+//! Parent side (this file): the index space is cut into chunks; 16 threads each
+//! drive one child (`c12 --worker <tier> <lo> <hi>`) at a time.  Panics are
+//! caught inside the child and reported with message and source location.  A
+//! child that dies (stack overflow, abort, allocation failure under its 2 GiB
+//! address-space cap) or that stays inside one call for too much CPU time is
+//! killed; the offending string is re-run alone (`c12 --solo <case>`), call by
+//! call, which yields the exact call, the stage and the kind, and is also what
+//! `--replay` does.  Debug switches: `--list`, `--show <idx>`, `--family <f>`,
+//! `--lang <l>`, `--range <lo> <hi>`, env `C12_TIMING=1`.
 
 mod inputs;
 mod worker;
@@ -29,7 +42,7 @@ const STARTUP_DEADLINE: Duration = Duration::from_secs(120);
 const FULL_CONFIRMATIONS: u32 = 2;
 const POLL: Duration = Duration::from_millis(20);
 /// Limits used for parser/translator/binder probes of tiny strings once the same (language, stage) hang is confirmed.
-const FAST_LIMITS: Limits = Limits { cpu_ms: 40, wall: Duration::from_secs(5) };
+const FAST_LIMITS: Limits = Limits { cpu_ms: 60, wall: Duration::from_secs(5) };
 const SMALL_FAMILIES: [&str; 3] = ["tokens", "mutant", "edge"];
 /// "small input" for the purposes of the time/memory clause of the statement.
 const SMALL_INPUT_BYTES: usize = 4096;
@@ -190,7 +203,7 @@ fn run_child(args: &[String], limits_for: &dyn Fn(Option<&str>) -> Limits) -> Ch
     let mut poll_cpu: u64 = 0;
     let mut stuck_cpu: u64 = 0;
     let mut stuck_since = Instant::now();
-    let mut handle = |line: String, run: &mut ChildRun, finished: &mut bool, pipe_seq: &mut u64| {
+    let handle = |line: String, run: &mut ChildRun, finished: &mut bool, pipe_seq: &mut u64| {
         if let Some(r) = line.strip_prefix("S ") {
             run.last_s = r.trim().parse().ok();
             run.last_c = None;
@@ -368,8 +381,31 @@ fn panic_violation(item: &inputs::Item, call: &str, stage: &str, msg: &str, loc:
     )
 }
 
+/// `[...*...]` inside a relationship pattern.
+fn has_varlen_path(q: &str) -> bool {
+    let mut depth = 0;
+    for c in q.chars() {
+        match c {
+            '[' => depth += 1,
+            ']' => depth -= 1,
+            '*' if depth > 0 => return true,
+            _ => {}
+        }
+    }
+    false
+}
+
 fn death_violation(item: &inputs::Item, call: &str, stage: &str, kind: &str, detail: &str) -> Violation {
-    let shape = if item.family == "ladder" { item.shape.as_str() } else { "-" };
+    // which construct nests/repeats (ladders); otherwise a coarse syntactic class so that different hang mechanisms do not share a signature
+    let shape = if item.family == "ladder" {
+        item.shape.as_str()
+    } else if matches!(item.lang, Lang::Gql | Lang::Cypher) && stage == "execute" && has_varlen_path(&item.query) {
+        "varlen-path"
+    } else if matches!(item.lang, Lang::Gql | Lang::Cypher) && item.query.matches("MATCH").count() >= 16 {
+        "chain-match"
+    } else {
+        "-"
+    };
     Violation::new(
         &[("lang", item.lang.name()), ("stage", stage), ("kind", kind), ("site", "-"), ("loc", "-"), ("shape", shape)],
         case_json(item, call),
@@ -464,6 +500,7 @@ fn solo_x(item: &inputs::Item, fe0_only_from_start: bool, reduced: bool) -> Solo
         }
         let (kind, detail): (&str, String) = match &run.end {
             End::Finished => break,
+            End::Timeout if run.spurious => continue,
             End::Died { kind, detail } => {
                 res.deaths += 1;
                 (kind, detail.clone())
@@ -826,51 +863,6 @@ fn run(args: vcore::Args) -> i32 {
     }
     let tier = args.tier;
     let space = Space::build(tier);
-    if args.rest.iter().any(|a| a == "--bench") {
-        let t = Instant::now();
-        let _s = Space::build(tier);
-        println!("Space::build {:?}", t.elapsed());
-        {
-            let t = Instant::now();
-            for _ in 0..50 { let s = grafeo_core::graph::lpg::LpgStore::new(); drop(s); }
-            println!("LpgStore::new+drop x50 {:?}", t.elapsed());
-            let t = Instant::now();
-            for _ in 0..50 { let s = grafeo_core::graph::rdf::RdfStore::new(); drop(s); }
-            println!("RdfStore::new+drop x50 {:?}", t.elapsed());
-            let t = Instant::now();
-            for _ in 0..50 { let s = grafeo_engine::Config::in_memory(); drop(s); }
-            println!("Config x50 {:?}", t.elapsed());
-            let t = Instant::now();
-            for _ in 0..50 { let s = grafeo_engine::GrafeoDB::with_config(grafeo_engine::Config::in_memory().with_memory_limit(1<<30)).unwrap(); drop(s); }
-            println!("with_config(mem limit) x50 {:?}", t.elapsed());
-            let t = Instant::now();
-            for _ in 0..50 { let s = grafeo_engine::GrafeoDB::new_in_memory(); drop(s); }
-            println!("new_in_memory x50 {:?}", t.elapsed());
-        }
-        {
-            let db = worker::make_db(worker::DbKind::G0);
-            let show = |db: &grafeo_engine::GrafeoDB| format!("{} {} {} {} {} fp={:x}", db.node_count(), db.edge_count(), db.label_count(), db.property_key_count(), db.edge_type_count(), worker::fingerprint(db));
-            println!("G0 fresh: {}", show(&db));
-            let t = Instant::now();
-            let _ = worker::fingerprint(&db);
-            println!("fingerprint cost {:?}", t.elapsed());
-            let _ = db.execute_gremlin("g.V()");
-            println!("after g.V(): {}", show(&db));
-            let _ = db.execute_gremlin("g.V().has('nick', 'x')");
-            println!("after has nick: {}", show(&db));
-            let _ = db.execute("MATCH (n:Foo) WHERE n.bar = 1 RETURN n.baz");
-            println!("after gql read: {}", show(&db));
-        }
-        for k in [worker::DbKind::Empty, worker::DbKind::G0] {
-            let t = Instant::now();
-            let db = worker::make_db(k);
-            let t1 = t.elapsed();
-            let t = Instant::now();
-            drop(db);
-            println!("make_db {:?} build {:?} drop {:?}", k, t1, t.elapsed());
-        }
-        return 0;
-    }
     if args.rest.iter().any(|a| a == "--list") {
         // debugging aid: print the space (family sizes) and exit
         for s in &space.segs {
@@ -1038,7 +1030,7 @@ fn run(args: vcore::Args) -> i32 {
     rep.set("hang_candidates_recorded_without_solo_rerun", json!(fast_path_hangs));
     rep.assumptions.push("A panic is observed through catch_unwind in the child; the C binding (crates/bindings/c) forwards to the same entry points without an unwind guard and is covered by implication only.".into());
     rep.assumptions.push("Stack-overflow thresholds are those of this build profile (opt-level 2, debug assertions, overflow checks) on an 8 MiB thread stack; other profiles shift the numbers, not the existence of unbounded recursion.".into());
-    rep.assumptions.push("A timeout verdict means: re-run alone, one call consumed 3 s of CPU (or 30 s wall) without returning; CPU time, not wall time, is the primary clock so machine load cannot produce it. Exception, stated per violation: for strings of the families tokens/mutant/edge (<= ~300 bytes) a parser/translator/binder call that burnt 40 ms CPU (normal: microseconds) is recorded without the 3 s re-run once two hangs of the same language+stage were confirmed in full.".into());
+    rep.assumptions.push("A timeout verdict means: re-run alone, one call consumed 3 s of CPU (or 30 s wall) without returning; CPU time, not wall time, is the primary clock so machine load cannot produce it. Exception, stated per violation: for strings of the families tokens/mutant/edge (<= ~300 bytes) a parser/translator/binder call that burnt 60 ms CPU (normal: microseconds) is recorded without the 3 s re-run once two hangs of the same language+stage were confirmed in full.".into());
     // One representative per panic signature is re-run alone (fresh databases for every call) so that every
     // replay file reproduces by construction; batch workers reuse a database while its contents are unchanged.
     let mut by_sig: BTreeMap<String, Vec<usize>> = BTreeMap::new();
